@@ -21,7 +21,7 @@ EVENTS = ("connect", "request", "partial", "finish", "tick")
 
 
 def BOUNDS(tier):
-    return ("event histories of length <= %d over %r; symbolic channel_timeout, cleanup_interval, clock steps; connection_limit in {3,4}; "
+    return ("event histories of length <= %d over %r; symbolic channel_timeout, cleanup_interval, clock steps; connection_limit in {3,4}; channel_request_lookahead in {0,1}; "
             "schedules without pre-emption (the property is about histories; interleavings are C04/C05/C11)." % (4 if tier == "quick" else 6, EVENTS))
 
 
@@ -51,7 +51,7 @@ def make_inputs(job):
     I = eng.fresh_int("cleanup_interval", 1, 120)
     deltas = [eng.fresh_int("delta%d" % i, 0, 600) for i, e in enumerate(hist) if e == "tick"]
     from wsx import runner
-    return dict(hist=hist, limit=job["limit"], T=T, I=I, deltas=deltas, stalled=bool(job.get("stalled")))
+    return dict(hist=hist, limit=job["limit"], T=T, I=I, deltas=deltas, stalled=bool(job.get("stalled")), lookahead=eng.choose(2, "lookahead"))
 
 
 def scenario(ns, inp):
@@ -65,7 +65,8 @@ def scenario(ns, inp):
         start_response("200 OK", [("Content-Length", "2")])
         return [b"ok"]
 
-    sysm = hsys.System(ns, app, adj_kw=dict(threads=2, connection_limit=inp["limit"], channel_timeout=inp["T"], cleanup_interval=inp["I"]), P=0,
+    sysm = hsys.System(ns, app, adj_kw=dict(threads=2, connection_limit=inp["limit"], channel_timeout=inp["T"], cleanup_interval=inp["I"],
+                                   channel_request_lookahead=inp.get("lookahead", 0)), P=0,
                        yield_funcs=set())
     t0 = 1700000000
     env.CLOCK.now = t0
